@@ -176,8 +176,11 @@ impl Ctx {
     }
 
     pub fn machinery_error(&self, s: String) {
-        eprintln!("MACHINERY ERROR: {}", s);
-        self.machinery_errors.lock().unwrap().push(s);
+        let mut g = self.machinery_errors.lock().unwrap();
+        if g.len() < 5 {
+            eprintln!("MACHINERY ERROR: {}", truncate(&s, 400));
+        }
+        g.push(truncate(&s, 400));
     }
 
     /// Vacuity guard: a tag that must have been observed at least `min` times.
@@ -326,7 +329,7 @@ pub fn finish(ctx: &Ctx, level: &str, rule: &str, exhaustive: bool, states: Opti
                 e.what,
                 e.id,
                 n,
-                truncate(example, 120)
+                truncate(&example.replace('\n', "\\n"), 120)
             );
         }
     }
